@@ -10,6 +10,7 @@ RAC = {
     'plain_english_tiles': dict(crate=CORE, attach=S + 'lexing/mod.rs', file='lexing.rs', test='rac_plain_english_tiles', function='PlainEnglish::parse'),
     'pattern_contract': dict(crate=CORE, attach=S + 'linting/pattern_linter.rs', file='patterns.rs', test='rac_pattern_contract', function='Pattern::matches'),
     'merged_union': dict(crate=CORE, attach=S + 'spell/merged_dictionary.rs', file='merged_dictionary.rs', test='rac_merged_union', function='MergedDictionary'),
+    'document_tiles': dict(crate=CORE, attach=S + 'document.rs', file='document.rs', test='rac_document_tiles', function='Document::parse (condensing passes)'),
 }
 # Verus piece name -> runtime contract checks that exercise the same clause on the real code
 RAC_FOR_FUNCTION = {
